@@ -386,13 +386,55 @@ func c12InstanceStep(c *Ctx) {
 	c.Check(constPause.Block() == onceStep.Block() && InstrDominates(constPause, onceStep) && BlockCanReach(onceStep.Block(), onceStep.Block()),
 		"O12.5", k+":pause-then-step-in-loop", constPause.Pos(), "each loop iteration appends const(0, stepDuration) and then once(step)")
 	// every schedule built is appended to the same slice that is returned as composite: appends count
-	apps := 0
-	EachInstr(fn, func(in ssa.Instruction) {
-		if IsBuiltinCall(in, "append") {
-			apps++
+	// where each part is put into a slice element (the array behind an append's variadic arguments or a slice literal)
+	type slot struct {
+		arr ssa.Value
+		idx int64
+		st  *ssa.Store
+	}
+	slotOf := func(cl *ssa.Call) *slot {
+		var out *slot
+		var vals []ssa.Value
+		vals = append(vals, cl)
+		if cl.Referrers() != nil {
+			for _, r := range *cl.Referrers() {
+				if mi, ok := r.(*ssa.MakeInterface); ok {
+					vals = append(vals, mi)
+				}
+				if ct, ok := r.(*ssa.ChangeInterface); ok {
+					vals = append(vals, ct)
+				}
+			}
 		}
-	})
-	c.Check(apps == 3, "O12.5", k+":three-appends", fn.Pos(), fmt.Sprintf("%d append calls (want 3: once(from); const, once(step))", apps))
+		for _, v := range vals {
+			if v.Referrers() == nil {
+				continue
+			}
+			for _, r := range *v.Referrers() {
+				st, ok := r.(*ssa.Store)
+				if !ok || st.Val != v {
+					continue
+				}
+				if ia, ok := st.Addr.(*ssa.IndexAddr); ok {
+					if kk, isK := ConstInt(ia.Index); isK {
+						out = &slot{ia.X, kk, st}
+					}
+				}
+			}
+		}
+		return out
+	}
+	sf, sp, ss := slotOf(onceFrom), slotOf(constPause), slotOf(onceStep)
+	okSlots := sf != nil && sp != nil && ss != nil
+	okOrder := false
+	if okSlots {
+		if sp.arr == ss.arr {
+			okOrder = sp.idx < ss.idx
+		} else {
+			okOrder = InstrDominates(sp.st, ss.st)
+		}
+	}
+	c.Check(okSlots && okOrder, "O12.5", k+":three-appends", fn.Pos(), fmt.Sprintf("once(from), const(0, stepDuration) and once(step) are each put into the list of parts (%v), the pause before the step (%v)", okSlots, okOrder))
 	// loop bounds: phi i = [from+step, i+step]; cond i <= to
 	okLoop := false
 	detail := "loop counter not found"
